@@ -294,8 +294,16 @@ class ObjMachine(Machine):
                         it.pop("name", None)
         if dc != dx:
             from .m_acl import AclMachine
-            self._fail("C16.equal-data", f"{cname} {op['how']}: data() differs: "
-                       f"{AclMachine._dict_diff(dx, dc)}", cls=cname)
+            diff = AclMachine._dict_diff(dx, dc)
+            if cname == "Acl" and getattr(x, "group_by", "") and diff.startswith(".items: len") \
+                    and c.line == x.line:
+                # block structure differs although the text is identical
+                self.soft_fail("C16", "C16.equal-data", f"Acl {op['how']}: same text, other block "
+                               f"structure: {diff}", cls=cname, diff_kind="toplevel-structure")
+                self.trace.append(("copy-structure",))
+                return "known"
+            self._fail("C16.equal-data", f"{cname} {op['how']}: data() differs: {diff}",
+                       cls=cname)
         if cname in HAS_EQ and not (c == x):
             self._fail("C16.equal-eq", f"{cname} {op['how']}: copy != source", cls=cname)
         if c.uuid == x.uuid and op["how"] == "copy":
